@@ -56,6 +56,9 @@ func outermostGenerated(f *ast.File) []*ast.CallExpr {
 		if fd, ok := n.(*ast.FuncDecl); ok && strings.HasPrefix(fd.Name.Name, "extraP") {
 			return false
 		}
+		if vs, ok := n.(*ast.ValueSpec); ok && len(vs.Names) == 1 && strings.HasPrefix(vs.Names[0].Name, "extraP") {
+			return false
+		}
 		if isGeneratedCall(n) {
 			out = append(out, n.(*ast.CallExpr))
 			return false
